@@ -30,9 +30,12 @@ struct vp_probe {
     int ndistinct;
     vp_big distinct[VP_DISTINCT];
     int first_fact; /* index into facts chain, -1 none */
+    vp_big last;    /* most recent observation (for symbolic relations) */
 };
 struct vp_fact {
-    int probe, kind; /* 0 EQ 1 NE 2 GT 3 LT */
+    int probe, kind; /* 0 EQ 1 NE 2 GT 3 LT; +4: symbolic, k = delta, ref = probe of the other expression */
+    int ref;
+    unsigned long ambiguous;
     vp_big k;
     int k_ge_2_63;  /* K >= 2^63: representational folding applies on unsigned tokens */
     unsigned long hits, viol;
@@ -80,6 +83,22 @@ static void vp_init(void)
             struct vp_fact *ft = &vp_facts[vp_nfacts];
             if (id < 0 || id >= VP_MAXPROBES) continue;
             ft->probe = id;
+            ft->ref = -1;
+            ft->ambiguous = 0;
+            if (kind[0] == 'S') { /* SEQ SNE SGT SLT: "<id> SEQ <ref>:<delta>" */
+                char *colon = strchr(num, ':');
+                if (!colon) continue;
+                *colon = 0;
+                ft->ref = atoi(num);
+                if (ft->ref < 0 || ft->ref >= VP_MAXPROBES) continue;
+                ft->kind = 4 + (!strcmp(kind, "SEQ") ? 0 : !strcmp(kind, "SNE") ? 1 : !strcmp(kind, "SGT") ? 2 : 3);
+                ft->k = vp_parse_big(colon + 1);
+                ft->k_ge_2_63 = 0;
+                ft->hits = ft->viol = 0;
+                ft->next = vp_probes[id].first_fact;
+                vp_probes[id].first_fact = vp_nfacts++;
+                continue;
+            }
             ft->kind = !strcmp(kind, "EQ") ? 0 : !strcmp(kind, "NE") ? 1 : !strcmp(kind, "GT") ? 2 : 3;
             ft->k = vp_parse_big(num);
             ft->k_ge_2_63 = ft->k >= ((vp_big)1 << 63);
@@ -108,6 +127,21 @@ static void vp_obs(int id, vp_big v, int is_unsigned, int size)
         struct vp_fact *ft = &vp_facts[fi];
         vp_big k = ft->k;
         int ok;
+        if (ft->kind >= 4) {
+            /* symbolic relation v (op) value(ref) + delta; judged only when the other expression has been
+             * evaluated and ref + delta is representable in this expression's type (both readings agree) */
+            struct vp_probe *rp = &vp_probes[ft->ref];
+            vp_big t, lo, hi;
+            if (!rp->hits) continue;
+            t = rp->last + ft->k;
+            if (is_unsigned) { lo = 0; hi = (((vp_big)1) << (8 * size)) - 1; }
+            else { hi = (((vp_big)1) << (8 * size - 1)) - 1; lo = -hi - 1; }
+            if (t < lo || t > hi) { ft->ambiguous++; continue; }
+            ok = ft->kind == 4 ? v == t : ft->kind == 5 ? v != t : ft->kind == 6 ? v > t : v < t;
+            ft->hits++;
+            if (!ok) { if (!ft->viol) ft->firstbad = v; ft->viol++; }
+            continue;
+        }
         /* unsigned tokens are dumped as 64-bit biguint: fold a value >= 2^63 to the token's width */
         if (is_unsigned && ft->k_ge_2_63 && size < 8)
             k &= (((vp_big)1) << (8 * size)) - 1;
@@ -115,6 +149,7 @@ static void vp_obs(int id, vp_big v, int is_unsigned, int size)
         ft->hits++;
         if (!ok) { if (!ft->viol) ft->firstbad = v; ft->viol++; }
     }
+    p->last = v;
 }
 static void vp_finish(void)
 {
@@ -138,6 +173,7 @@ static void vp_finish(void)
         fprintf(f, "F %d %d %lu %lu ", ft->probe, ft->kind, ft->hits, ft->viol);
         vp_print_big(f, ft->k); fputc(' ', f);
         vp_print_big(f, ft->viol ? ft->firstbad : 0);
+        fprintf(f, " %d", ft->ref);
         fputc('\n', f);
     }
     fputs("END\n", f);
